@@ -15,18 +15,22 @@ from . import ppreplay
 
 
 def h_conform(m, ctx, nlines, menu_name, trailing=True, first_pass=False, mix_le=False, fixed=None, inc_len=3, out_len=2,
-              final_newline=None, le_choices=(b'\n', b'\r\n')):
+              final_newline=None, le_choices=(b'\n', b'\r\n'), pre_temp_len=None, pre_out_len=None):
     it = Interp(m, ctx)
     source, desc = build_source(ctx, nlines, menu_name, mix_le=mix_le, fixed=fixed, final_newline=final_newline,
                                 le_choices=le_choices)
     se = SymEnv(ctx, inc_len=inc_len, out_len=out_len)
-    env = se.install(it, source)
+    # files of earlier builds may be lying at the generated paths (temp files are kept between builds by design)
+    pre_temp = ctx.fresh_bytes('pt', pre_temp_len, ASCII_ALL) if pre_temp_len is not None else None
+    pre_out = ctx.fresh_bytes('po', pre_out_len, ASCII_ALL) if pre_out_len is not None else None
+    env = se.install(it, source, pre_out=pre_out, pre_temp=pre_temp)
     r = run_preprocess(m, it, 'Build', first_pass, trailing)
     impl_ok = (r.idx == 0)
     out = env.read_file(OUT)
     tmp = env.read_file(WORK + b'/t.tmp')
     data = {'op': 'pp', 'lines': desc, 'source': syms_of(source), 'inc': syms_of(se.inc_content),
             'cmd_results': [(code, syms_of(o)) for _, code, o in se.cmd_results], 'trailing': trailing,
+            'pre_temp': syms_of(pre_temp) if pre_temp is not None else None, 'pre_out': syms_of(pre_out) if pre_out is not None else None,
             'source_shown': show_bytes(source)}
     ctx.notes['lines'] = desc
     ctx.notes['native_check'] = {'kind': 'pp', 'data': {k: data[k] for k in ('source', 'inc', 'cmd_results', 'trailing')}, 'ok': impl_ok,
@@ -54,6 +58,10 @@ def h_conform(m, ctx, nlines, menu_name, trailing=True, first_pass=False, mix_le
         if tmp is None:
             violation(ctx, 'temp file not written', data)
         check_bytes_equal(ctx, tmp, want, 'temp file bytes differ from the documented semantics', data)
+    elif pre_temp is not None:
+        if tmp is None:
+            violation(ctx, 'a file that is not a temp target of this build was removed', data)
+        check_bytes_equal(ctx, tmp, pre_temp, 'a file that is not a temp target of this build was modified', data)
     elif tmp is not None:
         violation(ctx, 'temp file written although no temp directive was executed', data)
 
@@ -78,6 +86,12 @@ def jobs(tier):
         for first in ['write', 'include f', 'run', 'text']:
             js.append({'name': 'indent 2 lines first=%s' % first, 'harness': (H, 'h_conform'),
                        'params': {'nlines': 2, 'menu_name': 'indent', 'fixed': [first]}})
+        for ptl in (1, 3, 5):
+            js.append({'name': 'temp over an older temp file of %d bytes' % ptl, 'harness': (H, 'h_conform'),
+                       'params': {'nlines': 2, 'menu_name': 'small', 'fixed': ['temp', 'cont prefix'], 'le_choices': (b'\n',), 'pre_temp_len': ptl,
+                                  'final_newline': True}})
+        js.append({'name': 'text over an older output of 5 bytes', 'harness': (H, 'h_conform'),
+                   'params': {'nlines': 1, 'menu_name': 'small', 'fixed': ['text'], 'le_choices': (b'\n',), 'pre_out_len': 5}})
         js.append({'name': 'small 1 line', 'harness': (H, 'h_conform'), 'params': {'nlines': 1, 'menu_name': 'small'}})
         js.append({'name': 'small 1 line no-trailing', 'harness': (H, 'h_conform'), 'params': {'nlines': 1, 'menu_name': 'small', 'trailing': False}})
         js.append({'name': 'empty file', 'harness': (H, 'h_conform'), 'params': {'nlines': 0, 'menu_name': 'small'}})
@@ -96,6 +110,10 @@ def jobs(tier):
                 js.append({'name': 'small 4 lines %s/%s LF' % (first, second), 'harness': (H, 'h_conform'),
                            'params': {'nlines': 4, 'menu_name': 'small', 'fixed': [first, second], 'le_choices': (b'\n',),
                                       'inc_len': 2, 'out_len': 1, 'final_newline': True}, 'split': 4})
+        for ptl in (1, 2, 3, 4, 5, 6):
+            for sc in (['temp', 'cont prefix'], ['temp'], ['temp', 'cont prefix', 'cont prefix']):
+                js.append({'name': 'temp over an older temp file of %d bytes %s' % (ptl, '/'.join(sc)), 'harness': (H, 'h_conform'),
+                           'params': {'nlines': len(sc), 'menu_name': 'small', 'fixed': sc, 'le_choices': (b'\n',), 'pre_temp_len': ptl}})
         js.append({'name': 'mixed line endings 3 lines', 'harness': (H, 'h_conform'),
                    'params': {'nlines': 3, 'menu_name': 'small', 'mix_le': True, 'inc_len': 2, 'out_len': 1}, 'split': 16})
         js.append({'name': 'no-trailing 2 lines', 'harness': (H, 'h_conform'), 'params': {'nlines': 2, 'menu_name': 'small', 'trailing': False}, 'split': 16})
